@@ -172,4 +172,17 @@ example : ∃ s, Reachable (Cfg.real 16) s ∧ s.rx = .taken [1] [] [] true ∧ 
   ⟨_, ⟨[.send 0, .rxTake, .rxBegin, .send 1, .whenEmpty 7, .rxOutcome .ok, .rxTake, .rxFireTake, .trySend 2], rfl⟩,
    by decide, by decide, by decide, _, rfl, by decide, by decide⟩
 
+
+/-- **Every way of building an outcome means the same.** "Retry exactly `rem`" reached directly, by attaching a
+    remainder to a non-retryable error, by replacing the remainder of a retryable error, or by taking an error apart
+    and rebuilding it is one and the same value, so the retry clause (`retry_is_remainder`) does not depend on how
+    the processor built its error; likewise for "failed, nothing to retry". -/
+theorem outcome_forms_agree {T : Type} (rem other : T) :
+    (BErr.noRetry : BErr T).mapRetryable (fun _ => some rem) = BErr.retry rem ∧
+    (BErr.retry other).mapRetryable (fun r => r.map fun _ => rem) = BErr.retry rem ∧
+    (match (BErr.retry rem).tryIntoRetryable with | .ok r => BErr.retry r | .error e => e) = BErr.retry rem ∧
+    (BErr.retry other).mapRetryable (fun _ => (none : Option T)) = BErr.noRetry ∧
+    (match (BErr.noRetry : BErr T).tryIntoRetryable with | .ok r => BErr.retry r | .error e => e) = BErr.noRetry := by
+  refine ⟨rfl, rfl, rfl, rfl, rfl⟩
+
 end EmitModel.C06
